@@ -54,3 +54,15 @@ add(
     "Exploration: the C03 histories (other seeds) are judged after every op by: membership <=> parent attribute for all six relations, single ownership, len vs iteration, the reference model's parent of every node (old parent forgot the node; unnamed nodes did not move), module order, .ir/.module/.section, all aggregate iterators of IR/Module/Section as multisets, and an attribute frame condition; 10% of cases construct pairs of nodes with default or shared mutable arguments and check they share no state. Sampling, not proof.",
     "Trusts vlib/forest.py (model), Hypothesis. Re-inserting a module into the list already holding it is judged by uniqueness/membership only (position ambiguous).",
 )
+add(
+    "C10",
+    "stateful model-based testing: forest + symbol-state reference model, all lookups re-evaluated after every step",
+    "Exploration: Hypothesis op programs (quick 6k, thorough 100k histories) mixing symbol renames (colliding names incl. ''), payload switches between block / proxy / int (0 included) / None through every entry point, symbol add/remove/move from both ends, referent and container moves and load(save()); after every op symbols_named for every module x every pool name and references for every block/proxy must equal, duplicate-free, what the model (module membership, name, payload, block's current module) implies. Sampling, not proof.",
+    "Trusts vlib/forest.py (model), Hypothesis.",
+)
+add(
+    "C16",
+    "differential testing against built-in list/set/dict semantics over generated call sequences (stateful), with move semantics for owned nodes",
+    "Exploration: Hypothesis programs (quick 8k, thorough 100k) over the whole collections.abc surface: every MutableSequence call on ir.modules (int / slice / extended-slice get/set/del, insert, append, extend, +=, pop, remove, reverse, clear, index, count, reversed, contains), every MutableSet call on the five node sets (add, discard, remove, pop, clear, update with 0-2 iterables, |= &= -= ^=, | & - ^ and reflected forms with set / frozenset / other wrappers, comparisons, isdisjoint) and every MutableMapping call on symbolic_expressions (incl. popitem, setdefault, update from itself, whole-mapping self-assignment); return values, exception types and resulting contents are compared with the built-in operation, and the forest must equal the reference model after every call, failed calls included. Sampling, not proof.",
+    "Trusts CPython list/set/dict as the reference, vlib/forest.py, Hypothesis.",
+)
